@@ -259,3 +259,187 @@ Proof.
            (fun y Hy => ex_intro _ y (conj Hy eq_refl)) (fun x y _ _ => eq_refl) t).
 Qed.
 Print Assumptions C06_single_all_entry_points_same_cuts.
+
+(* ---- the same LABELLED dendrogram ---- *)
+Require Import KV.Proofs.DendUnique KV.Proofs.AgreeSingle KV.Proofs.AgreeChainFinal KV.Proofs.AgreeChainInstances.
+
+(* a well-formed stepwise dendrogram is determined by the partitions of the observations
+   after each prefix of its steps *)
+Theorem C06_dendrogram_determined_by_prefix_partitions : forall (T : Type) (n : nat) (D D' : list (step T)),
+  1 <= n -> wf_dend n D -> wf_dend n D' ->
+  (forall j x y, j <= n - 1 -> x < n -> y < n ->
+     (labi n D j x = labi n D j y <-> labi n D' j x = labi n D' j y)) ->
+  forall i t t', nth_error D i = Some t -> nth_error D' i = Some t' ->
+    s_c1 t = s_c1 t' /\ s_c2 t = s_c2 t' /\ s_size t = s_size t'.
+Proof. exact dend_unique. Qed.
+Print Assumptions C06_dendrogram_determined_by_prefix_partitions.
+
+(* readings, pinned: pairwise distinct heights; order-equivalence *)
+Theorem C06_strictly_def : forall (T : Type) (F : fops T) (hs : list T),
+  strictly F hs <-> forall i k a b, i < k -> nth_error hs i = Some a -> nth_error hs k = Some b -> f_ltb F a b = true.
+Proof. intros. reflexivity. Qed.
+Theorem C06_eqv_def : forall (T : Type) (ltb : T -> T -> bool) (a b : T),
+  eqv ltb a b <-> (ltb a b = false /\ ltb b a = false).
+Proof. intros. reflexivity. Qed.
+
+(* Method::Single, ANY two of the five entry points (linkage, mst, nnchain, generic, primitive),
+   any carrier whose `<` is a strict weak order, finite input: if the heights returned by one
+   are pairwise distinct, the other returns the same labels and sizes in the same step order,
+   and heights that are order-equivalent position by position *)
+Theorem C06_single_all_entry_points_same_dendrogram : forall (T : Type) (F : fops T) (p : profile),
+  (forall a, f_ltb F a a = false) ->
+  (forall a b c, f_ltb F a b = true -> f_ltb F b c = true -> f_ltb F a c = true) ->
+  (forall a b c, f_ltb F a b = false -> f_ltb F b c = false -> f_ltb F a c = false) ->
+  (forall a b, f_eqb F a b = true -> f_ltb F b a = false) ->
+  (forall a, f_eqb F a a = true) ->
+  forall (a1 a2 : algo) s1 d1 s2 d2 (m : list T) n sr1 dr1 mr1 sr2 dr2 mr2 M0,
+  (n < two32)%N ->
+  run_with F p a1 Single s1 d1 m n = Ok (sr1, dr1, mr1) ->
+  run_with F p a2 Single s2 d2 m n = Ok (sr2, dr2, mr2) ->
+  prologue p m n = Ok M0 -> 1 <= m_obs M0 ->
+  Forall (fun v => f_ltb F v (f_inf F) = true) m ->
+  strictly F (heights dr1) ->
+  length (d_steps dr1) = length (d_steps dr2)
+  /\ forall i t t', nth_error (d_steps dr1) i = Some t -> nth_error (d_steps dr2) i = Some t' ->
+       s_c1 t = s_c1 t' /\ s_c2 t = s_c2 t' /\ s_size t = s_size t' /\ eqv (f_ltb F) (s_dis t) (s_dis t').
+Proof. exact single_same_dendrogram. Qed.
+Print Assumptions C06_single_all_entry_points_same_dendrogram.
+
+(* nnchain = primitive, the labelled dendrogram, for any reducible criterion: under the
+   hypotheses of C06_nnchain_primitive_same_hierarchy plus pairwise distinct returned heights *)
+Theorem C06_nnchain_primitive_same_dendrogram : forall (T : Type) (K : kops T) (p : profile) (meth : method),
+  (forall a, k_ltb K a a = false) ->
+  (forall a b c, k_ltb K a b = true -> k_ltb K b c = true -> k_ltb K a c = true) ->
+  (forall a b c, k_ltb K a b = false -> k_ltb K b c = false -> k_ltb K a c = false) ->
+  (forall a b, k_eqb K a b = true -> k_ltb K b a = false) ->
+  (forall va vb md sa sb sx, ChainIter.size_ok meth sa sb sx ->
+     k_ltb K va md = false -> k_ltb K vb md = false ->
+     k_ltb K (k_upd K va vb md sa sb sx) va = false \/ k_ltb K (k_upd K va vb md sa sb sx) vb = false) ->
+  forall crit : mtree -> mtree -> T -> Prop,
+  (forall A B v, crit A B v -> crit B A v) ->
+  (forall X A B va vb md, crit X A va -> crit X B vb -> crit A B md ->
+     crit X (Node A B) (k_upd K va vb md (tsize A) (tsize B) (if uses_size_x meth then tsize X else 0))) ->
+  (uses_sizes_ab meth = false ->
+     forall va vb md sa sb sa' sb' sx, k_upd K va vb md sa sb sx = k_upd K va vb md sa' sb' sx) ->
+  (forall A B v w, crit A B v -> crit A B w -> k_ltb K v w = false /\ k_ltb K w v = false) ->
+  requires_sorting meth = true ->
+  forall s1 d1 s2 d2 m n sp dp mp sc dc mc M0,
+  prologue p (square_all K m) n = Ok M0 -> 1 <= m_obs M0 ->
+  (forall x y v, x <> y -> x < m_obs M0 -> y < m_obs M0 -> wcell M0 x y = Some v -> crit (Leaf x) (Leaf y) v) ->
+  primitive_with K p meth s1 d1 m n = Ok (sp, dp, mp) ->
+  nnchain_with K p meth s2 d2 m n = Ok (sc, dc, mc) ->
+  distinct_from K (prim_iter K p meth) 0 (m_obs M0 - 1) (st_reset K s1 (m_obs M0)) (d_reset d1 (m_obs M0)) M0 ->
+  distinct_from K (chain_iter K p meth) 0 (m_obs M0 - 1)
+    (st_with_chain (st_reset K s2 (m_obs M0)) []) (d_reset d2 (m_obs M0)) M0 ->
+  (forall x y, k_ltb K (k_rt K x) (k_rt K y) = true -> k_ltb K x y = true) ->
+  strictly_lt K (heights dp) ->
+  length (d_steps dp) = length (d_steps dc)
+  /\ forall i t t', nth_error (d_steps dp) i = Some t -> nth_error (d_steps dc) i = Some t' ->
+       s_c1 t = s_c1 t' /\ s_c2 t = s_c2 t' /\ s_size t = s_size t'
+       /\ exists h h', s_dis t = k_rt K h /\ s_dis t' = k_rt K h' /\ eqv (k_ltb K) h h'.
+Proof. exact nnchain_primitive_same_dendrogram. Qed.
+Print Assumptions C06_nnchain_primitive_same_dendrogram.
+
+(* instances: complete (and single) over any strict weak order; average / weighted / ward over Q *)
+Theorem C06_selection_nnchain_primitive_same_dendrogram : forall (T : Type) (F : fops T) (p : profile),
+  (forall a, f_ltb F a a = false) ->
+  (forall a b c, f_ltb F a b = true -> f_ltb F b c = true -> f_ltb F a c = true) ->
+  (forall a b c, f_ltb F a b = false -> f_ltb F b c = false -> f_ltb F a c = false) ->
+  (forall a b, f_eqb F a b = true -> f_ltb F b a = false) ->
+  forall meth s1 d1 s2 d2 (m : list T) n sp dp mp sc dc mc M0,
+  meth = Single \/ meth = Complete ->
+  prologue p m n = Ok M0 -> 1 <= m_obs M0 ->
+  primitive_with (kops_of F meth) p meth s1 d1 m n = Ok (sp, dp, mp) ->
+  nnchain_with (kops_of F meth) p meth s2 d2 m n = Ok (sc, dc, mc) ->
+  distinct_from (kops_of F meth) (prim_iter (kops_of F meth) p meth) 0 (m_obs M0 - 1)
+    (st_reset (kops_of F meth) s1 (m_obs M0)) (d_reset d1 (m_obs M0)) M0 ->
+  distinct_from (kops_of F meth) (chain_iter (kops_of F meth) p meth) 0 (m_obs M0 - 1)
+    (st_with_chain (st_reset (kops_of F meth) s2 (m_obs M0)) []) (d_reset d2 (m_obs M0)) M0 ->
+  strictly_lt (kops_of F meth) (heights dp) ->
+  length (d_steps dp) = length (d_steps dc)
+  /\ forall i t t', nth_error (d_steps dp) i = Some t -> nth_error (d_steps dc) i = Some t' ->
+       s_c1 t = s_c1 t' /\ s_c2 t = s_c2 t' /\ s_size t = s_size t' /\ eqv (f_ltb F) (s_dis t) (s_dis t').
+Proof. intros T F p H1 H2 H3 H4. exact (@selection_nnchain_primitive_same_dendrogram T F p H1 H2 H3 H4). Qed.
+Print Assumptions C06_selection_nnchain_primitive_same_dendrogram.
+
+Theorem C06_Q_nnchain_primitive_same_dendrogram : forall (p : profile) (rt : Q -> Q) meth s1 d1 s2 d2 (m : list Q) n sp dp mp sc dc mc M0,
+  meth = Average \/ meth = Weighted \/ meth = Ward ->
+  prologue p (square_all (kops_of (QFr rt) meth) m) n = Ok M0 -> 1 <= m_obs M0 ->
+  primitive_with (kops_of (QFr rt) meth) p meth s1 d1 m n = Ok (sp, dp, mp) ->
+  nnchain_with (kops_of (QFr rt) meth) p meth s2 d2 m n = Ok (sc, dc, mc) ->
+  distinct_from (kops_of (QFr rt) meth) (prim_iter (kops_of (QFr rt) meth) p meth) 0 (m_obs M0 - 1)
+    (st_reset (kops_of (QFr rt) meth) s1 (m_obs M0)) (d_reset d1 (m_obs M0)) M0 ->
+  distinct_from (kops_of (QFr rt) meth) (chain_iter (kops_of (QFr rt) meth) p meth) 0 (m_obs M0 - 1)
+    (st_with_chain (st_reset (kops_of (QFr rt) meth) s2 (m_obs M0)) []) (d_reset d2 (m_obs M0)) M0 ->
+  (forall x y, f_ltb QF (k_rt (kops_of (QFr rt) meth) x) (k_rt (kops_of (QFr rt) meth) y) = true -> f_ltb QF x y = true) ->
+  strictly_lt (kops_of (QFr rt) meth) (heights dp) ->
+  length (d_steps dp) = length (d_steps dc)
+  /\ forall i t t', nth_error (d_steps dp) i = Some t -> nth_error (d_steps dc) i = Some t' ->
+       s_c1 t = s_c1 t' /\ s_c2 t = s_c2 t' /\ s_size t = s_size t'
+       /\ exists h h', s_dis t = k_rt (kops_of (QFr rt) meth) h /\ s_dis t' = k_rt (kops_of (QFr rt) meth) h' /\ eqv (f_ltb QF) h h'.
+Proof. exact Q_nnchain_primitive_same_dendrogram. Qed.
+Print Assumptions C06_Q_nnchain_primitive_same_dendrogram.
+
+(* non-vacuity of C06_single_all_entry_points_same_dendrogram: exact rationals with an
+   infinite sentinel satisfy the order laws, and on a concrete matrix with distinct
+   entries mst and generic both return, the heights are pairwise distinct, and (as the
+   theorem says) the step lists coincide *)
+Require Import KV.Proofs.QInf KV.Proofs.GenericGreedyInstances.
+Definition C06_mq : list qi := map (fun z => Some (inject_Z z)) [3; 1; 4; 5; 9; 2]%Z.
+Example C06_single_hypotheses_satisfiable :
+  let F0 := QI (fun x => x) in
+  (forall a, f_ltb F0 a a = false)
+  /\ (forall a b c, f_ltb F0 a b = true -> f_ltb F0 b c = true -> f_ltb F0 a c = true)
+  /\ (forall a b c, f_ltb F0 a b = false -> f_ltb F0 b c = false -> f_ltb F0 a c = false)
+  /\ (forall a b, f_eqb F0 a b = true -> f_ltb F0 b a = false)
+  /\ (forall a, f_eqb F0 a a = true)
+  /\ exists sr1 dr1 mr1 sr2 dr2 mr2 M0,
+       run_with F0 Debug AMst Single (st_new qi) (d_new qi 0) C06_mq 4 = Ok (sr1, dr1, mr1)
+       /\ run_with F0 Debug AGeneric Single (st_new qi) (d_new qi 0) C06_mq 4 = Ok (sr2, dr2, mr2)
+       /\ prologue Debug C06_mq 4 = Ok M0 /\ 1 <= m_obs M0
+       /\ Forall (fun v => f_ltb F0 v (f_inf F0) = true) C06_mq
+       /\ strictly F0 (heights dr1)
+       /\ d_steps dr1 = d_steps dr2.
+Proof.
+  cbv zeta. split; [exact qi_irrefl|]. split; [exact qi_trans|]. split; [exact qi_negtrans|].
+  split; [exact qi_eqb_le|]. split; [exact qi_eqb_refl|].
+  eexists _, _, _, _, _, _, _. split; [vm_compute; reflexivity|]. split; [vm_compute; reflexivity|].
+  split; [vm_compute; reflexivity|]. split; [cbn; lia|].
+  split; [repeat constructor|].
+  split; [|reflexivity].
+  intros [|[|[|i]]] [|[|[|k]]] a b Hik Ha Hb; cbn in Ha, Hb; try lia; try discriminate;
+    try (destruct k; discriminate); try (destruct i; discriminate);
+    inversion Ha; inversion Hb; subst; reflexivity.
+Qed.
+
+(* ---- Method::Single on the two float carriers of the correspondence check ---- *)
+Require Import KV.Run.F64 KV.Run.F32 KV.Proofs.FloatInstances.
+From Flocq Require Import IEEE754.BinarySingleNaN.
+
+Theorem C06_f64_single_all_entry_points_same_dendrogram : forall (p : profile) (a1 a2 : algo) s1 d1 s2 d2
+  (m : list PrimFloat.float) (n : N) sr1 dr1 mr1 sr2 dr2 mr2 M0,
+  (n < two32)%N ->
+  run_with F64 p a1 Single s1 d1 m n = Ok (sr1, dr1, mr1) ->
+  run_with F64 p a2 Single s2 d2 m n = Ok (sr2, dr2, mr2) ->
+  prologue p m n = Ok M0 -> 1 <= m_obs M0 ->
+  Forall (fun v => PrimFloat.ltb v PrimFloat.infinity = true) m ->
+  strictly F64 (heights dr1) ->
+  length (d_steps dr1) = length (d_steps dr2)
+  /\ forall i t t', nth_error (d_steps dr1) i = Some t -> nth_error (d_steps dr2) i = Some t' ->
+       s_c1 t = s_c1 t' /\ s_c2 t = s_c2 t' /\ s_size t = s_size t' /\ eqv PrimFloat.ltb (s_dis t) (s_dis t').
+Proof. exact single_same_dendrogram_f64. Qed.
+Print Assumptions C06_f64_single_all_entry_points_same_dendrogram.
+
+Theorem C06_f32_single_all_entry_points_same_dendrogram : forall (p : profile) (a1 a2 : algo) s1 d1 s2 d2
+  (m : list f32) (n : N) sr1 dr1 mr1 sr2 dr2 mr2 M0,
+  (n < two32)%N ->
+  run_with F32 p a1 Single s1 d1 m n = Ok (sr1, dr1, mr1) ->
+  run_with F32 p a2 Single s2 d2 m n = Ok (sr2, dr2, mr2) ->
+  prologue p m n = Ok M0 -> 1 <= m_obs M0 ->
+  Forall (fun v => f_ltb F32 v (f_inf F32) = true) m ->
+  strictly F32 (heights dr1) ->
+  length (d_steps dr1) = length (d_steps dr2)
+  /\ forall i t t', nth_error (d_steps dr1) i = Some t -> nth_error (d_steps dr2) i = Some t' ->
+       s_c1 t = s_c1 t' /\ s_c2 t = s_c2 t' /\ s_size t = s_size t' /\ eqv (f_ltb F32) (s_dis t) (s_dis t').
+Proof. exact single_same_dendrogram_f32. Qed.
+Print Assumptions C06_f32_single_all_entry_points_same_dendrogram.
